@@ -33,6 +33,7 @@ type Case struct {
 	Bundled      []string          `json:"bundled"`
 	Layouts      []assetgen.Layout `json:"layouts"`
 	Inadmissible []assetgen.Layout `json:"inadmissible"`
+	Gapped       []assetgen.Layout `json:"gapped,omitempty"` // raw table with a hole at the first boundary
 	SharedRoot   bool              `json:"shared_root"` // metadata root = vod root
 	Damages      []Damage          `json:"damages"`
 	Rewrite      bool              `json:"rewrite_after_damage"` // run a writing server over the damaged cache before loading
@@ -50,10 +51,29 @@ func genCase(t *rapid.T) Case {
 	for i := 0; i < nl; i++ {
 		c.Layouts = append(c.Layouts, assetgen.Gen(t, assetgen.Opts{AllowText: true, AllowThumb: true, MinFrames: 10, MaxFrames: 60}))
 	}
+	// a layout whose raw segment table has a hole at its first boundary (the loader closes it) and, separately, the bundled
+	// MPD style with @duration in seconds and no @timescale
+	if rapid.IntRange(0, 2).Draw(t, "gap-layout") == 0 {
+		l := assetgen.Gen(t, assetgen.Opts{Audio: []string{""}, MinFrames: 10, MaxFrames: 60, Forms: []string{"number"}, Uniform: true})
+		if len(l.VSegFrames) >= 2 {
+			l.Gap1 = 1 + rapid.IntRange(0, l.VFrameDur-2).Draw(t, "gap1")
+			l.Text, l.Thumbs = false, false
+			l.Tag = "gap1"
+			c.Gapped = append(c.Gapped, l)
+		}
+	}
 	ni := rapid.IntRange(0, 2).Draw(t, "ninadm")
 	for i := 0; i < ni; i++ {
 		l := assetgen.Gen(t, assetgen.Opts{Audio: []string{"", "aac"}, MinFrames: 10, MaxFrames: 60, Forms: []string{"timeline"}})
-		switch rapid.SampledFrom([]string{"non-integral-ms", "reps-disagree"}).Draw(t, "inadm") {
+		switch rapid.SampledFrom([]string{"non-integral-ms", "non-integral-ms-seconds-mpd", "reps-disagree"}).Draw(t, "inadm") {
+		case "non-integral-ms-seconds-mpd":
+			// as below, with the MPD in the bundled style: $Number$, @duration in whole seconds, no @timescale
+			l.VTimescale, l.VFrameDur = 30000, 1001
+			l.Audio, l.ASegFrames, l.Text, l.Thumbs = "", nil, false, false
+			l.Form, l.MPDSeconds = "number", true
+			if l.TotalVFrames()%30 == 0 {
+				l.VSegFrames[0]++
+			}
 		case "non-integral-ms":
 			// a 1001-based clock with a frame count that is not a multiple of the quantum
 			l.VTimescale, l.VFrameDur = 30000, 1001
@@ -149,6 +169,7 @@ type info struct {
 	inadm     int
 	leftOut   int
 	refused   bool
+	gapped    int
 	identical int
 }
 
@@ -169,7 +190,7 @@ func checkCase(c Case, work string) (*hx.Violation, info) {
 			return hx.V("harness", "%v", err), inf
 		}
 	}
-	for _, l := range append(append([]assetgen.Layout{}, c.Layouts...), c.Inadmissible...) {
+	for _, l := range append(append(append([]assetgen.Layout{}, c.Layouts...), c.Inadmissible...), c.Gapped...) {
 		if _, err := l.Materialize(vodRoot); err != nil {
 			return hx.V("harness", "materialize: %v", err), inf
 		}
@@ -334,6 +355,7 @@ func checkCase(c Case, work string) (*hx.Violation, info) {
 			}
 		}
 	}
+	mpdOf := map[string]string{}
 	var admissible []string
 	for _, b := range c.Bundled {
 		admissible = append(admissible, b)
@@ -347,10 +369,65 @@ func checkCase(c Case, work string) (*hx.Violation, info) {
 			return hx.V("harness", "vod.Load %s: %v", name, err), inf
 		}
 		addAsset(a)
+		var names []string
+		for n := range a.MPDs {
+			names = append(names, n)
+		}
+		sort.Strings(names)
+		mpdOf[name] = names[0]
 	}
 	for _, l := range c.Inadmissible {
 		for _, now := range c.Instants[:1] {
 			urls = append(urls, ls.URL(nil, l.Name(), "Manifest.mpd", now), ls.URL([]string{"segtimeline_1"}, l.Name(), "Manifest.mpd", now), ls.URL(nil, l.Name(), "V300/init.mp4", now))
+		}
+	}
+	// (5) the loaded segment table of every served representation is contiguous: judged through the SegmentTimeline MPD over
+	// more than one loop (every S follows its predecessor) and by fetching every listed segment, on both servers; the layouts
+	// whose raw files have a hole at the first boundary are there to make the loader's gap closing matter
+	var contigAssets []string
+	for _, l := range c.Gapped {
+		contigAssets = append(contigAssets, l.Name())
+		inf.gapped++
+	}
+	contigAssets = append(contigAssets, admissible...)
+	for _, name := range contigAssets {
+		for si, srv := range []*ls.Server{scan, load} {
+			if si == 1 && damagedAssets[name] {
+				continue
+			}
+			now := int64(60_000)
+			mpdName := mpdOf[name]
+			if mpdName == "" {
+				mpdName = "Manifest.mpd"
+			}
+			mr := srv.Get(ls.URL([]string{"segtimeline_1", "tsbd_50"}, name, mpdName, now))
+			if mr.Code != 200 {
+				if si == 1 {
+					continue // left out by the cache-loaded server: judged by the comparison below
+				}
+				return hx.V("gapped-asset-not-served", "%s: MPD -> %v", name, mr), inf
+			}
+			m, err := mpdx.Parse(mr.Body)
+			if err != nil {
+				return hx.V("mpd-unparsable", "%s: %v", name, err), inf
+			}
+			for _, as := range m.Periods[0].AS {
+				if as.Tmpl == nil || as.Tmpl.Timeline == nil {
+					continue
+				}
+				decls, err := as.Tmpl.Expand()
+				if err != nil {
+					return hx.V("table-not-contiguous", "asset %s (server %d), adaptation set %s: %v", name, si, as.Kind(), err), inf
+				}
+				for k, d := range decls {
+					if k > 0 && k < len(decls)-1 && len(as.Reps) > 0 && k%3 == 0 {
+						su := ls.URL([]string{"segtimeline_1", "tsbd_50"}, name, as.Tmpl.MediaURL(as.Reps[0].ID, d.Nr, d.T), now)
+						if r := srv.Get(su); r.Code != 200 {
+							return hx.V("listed-segment-not-served", "%s -> %d (listed in the SegmentTimeline of the same instant)", su, r.Code), inf
+						}
+					}
+				}
+			}
 		}
 	}
 	urls = append(urls, "/assets")
